@@ -1,3 +1,4 @@
+import MpVerif.C13.Arith
 /-!
 # C13 — model of the piecewise-linear generator skeleton
 
@@ -15,95 +16,7 @@ With `rnd = id` the model is the generator over exact arithmetic; with `rnd = rn
 -/
 namespace MpVerif.C13
 
-/-! ## binary floating-point rounding on rationals (used by the driver instance) -/
-
-/-- `2^e` for an integer exponent -/
-def pow2 (e : Int) : Rat :=
-  if e ≥ 0 then ((2 ^ e.toNat : Nat) : Rat) else 1 / ((2 ^ (-e).toNat : Nat) : Rat)
-
-/-- round a non-negative rational to the nearest integer, ties to even -/
-def roundHE (q : Rat) : Int :=
-  let f := q.floor
-  let r := q - (f : Rat)
-  if r < 1/2 then f else if 1/2 < r then f + 1 else if f % 2 = 0 then f else f + 1
-
-/-- `⌊log₂ q⌋` for `q > 0` -/
-def ilog2 (q : Rat) : Int :=
-  let e0 : Int := (Nat.log2 q.num.toNat : Int) - (Nat.log2 q.den : Int)
-  if pow2 e0 ≤ q then e0 else e0 - 1
-
-/-- round to nearest (ties to even) with a `p`-bit significand; results are multiples of `2^eminUlp`
-(gradual underflow); no overflow handling (callers that need it test the magnitude) -/
-def rndP (p : Nat) (eminUlp : Int) (q : Rat) : Rat :=
-  if q = 0 then 0 else
-  let a := if q < 0 then -q else q
-  let e := ilog2 a
-  let u := max (e - ((p : Int) - 1)) eminUlp
-  let r := (roundHE (a / pow2 u) : Rat) * pow2 u
-  if q < 0 then -r else r
-
-/-- binary64 rounding -/
-def rndD (q : Rat) : Rat := rndP 53 (-1074) q
-
-/-- the value beyond every finite binary32 number, used as the "float infinity" sentinel -/
-def fltInf : Rat := pow2 128
-
-/-- `double → float` conversion (round to nearest even), overflow to the sentinel `±fltInf` -/
-def rndS (q : Rat) : Rat :=
-  let r := rndP 24 (-149) q
-  if r ≥ fltInf then fltInf else if r ≤ -fltInf then -fltInf else r
-
-/-- correctly rounded binary64 square root of a non-negative rational -/
-def sqrtD (q : Rat) : Rat :=
-  if q ≤ 0 then 0 else
-  let e := ilog2 q
-  let k : Int := (130 - e) / 2 + 1
-  let t := (q * pow2 (2 * k)).floor.toNat
-  let s := Nat.sqrt t
-  let exact : Bool := ((s * s : Nat) : Rat) = q * pow2 (2 * k)
-  let v : Rat := if exact then (s : Rat) else (s : Rat) + 1/2
-  rndD (v / pow2 k)
-
-/-! ## arithmetic parameters and constants -/
-
-structure FOps where
-  rnd : Rat → Rat
-  toF : Rat → Rat
-  sqrt : Rat → Rat
-
-/-- the instance that mirrors IEEE binary64 / binary32 -/
-def ieee : FOps := { rnd := rndD, toF := rndS, sqrt := sqrtD }
-
-/-- exact arithmetic (no rounding); `sqrt` is still an oracle -/
-def exactOps (sq : Rat → Rat) : FOps := { rnd := id, toF := id, sqrt := sq }
-
-def fadd (o : FOps) (a b : Rat) : Rat := o.rnd (a + b)
-def fsub (o : FOps) (a b : Rat) : Rat := o.rnd (a - b)
-def fmul (o : FOps) (a b : Rat) : Rat := o.rnd (a * b)
-def fdiv (o : FOps) (a b : Rat) : Rat := o.rnd (a / b)
-def rabs (a : Rat) : Rat := if a < 0 then -a else a
-
-/-- the double nearest to `1e-4` (AddPoint's merge threshold), exactly -/
-def eps4 : Rat := 7378697629483821 / 73786976294838206464
-/-- the double nearest to `1e-6` -/
-def eps6 : Rat := 4722366482869645 / 4722366482869645213696
-/-- the double nearest to `1e-10` -/
-def eps10 : Rat := 7737125245533627 / 77371252455336267181195264
-/-- the double nearest to `1.2` -/
-def c1_2 : Rat := 5404319552844595 / 4503599627370496
-/-- the double `1.0/1.1` (constant-folded by the compiler: correctly rounded quotient of doubles) -/
-def cInv1_1 : Rat := 8188362958855447 / 9007199254740992
-/-- the double nearest to `1e-100`, exactly -/
-def eps100 : Rat := (492525077454931 : Rat) / ((2 ^ 381 : Nat) : Rat)
-
 /-! ## data -/
-
-structure Dom where
-  lbx : Rat
-  ubx : Rat
-  lby : Rat
-  uby : Rat
-deriving Repr, BEq
 
 /-- value returned by a function oracle: a finite number, an infinity, NaN, or "not in the table" -/
 inductive OV where
@@ -181,11 +94,14 @@ structure Res where
 
 /-- `AddPoint(x, y)`: skip a point not farther than `1e-4` to the right of the last one; if the last two
 ordinates both equal `y`, move the last abscissa instead of adding a point -/
+def keepCond (o : FOps) (back x : Rat) : Prop := fadd o back eps4 < x
+instance (o : FOps) (back x : Rat) : Decidable (keepCond o back x) := by unfold keepCond; infer_instance
+
 def addPoint (o : FOps) (pl : PL) (x y : Rat) : PL :=
   match pl with
   | [] => [(x, y)]
   | (bx, byy) :: rest =>
-    if fadd o bx eps4 < x then
+    if keepCond o bx x then
       match rest with
       | (_, y2) :: _ => if byy = y ∧ y2 = y then (x, byy) :: rest else (x, y) :: pl
       | [] => (x, y) :: pl
@@ -218,6 +134,11 @@ def maxFin (x : Rat) (v : OV) : Rat :=
   match v with | .fin q => if x < q then q else x | .pinf => x /- unreachable in practice -/ | _ => x
 def minFin (x : Rat) (v : OV) : Rat :=
   match v with | .fin q => if q < x then q else x | _ => x
+
+/-- `ClipWithFunctionValues` when both pre-images are finite -/
+def clipValsFin (d : Dom) (imlbx imubx prelby preuby : Rat) : Dom :=
+  { lbx := max d.lbx (min prelby preuby), ubx := min d.ubx (max prelby preuby),
+    lby := max d.lby (min imlbx imubx), uby := min d.uby (max imlbx imubx) }
 
 /-- `ClipWithFunctionValues` (called before the subinterval loop: index `-100`) -/
 def clipVals (f : Fn) (d : Dom) : Except Status Dom := do
@@ -272,6 +193,16 @@ def addCand (o : FOps) (f : Fn) (x0 y0 slope : Rat) (pts : List (Rat × Rat)) (x
   | .miss => throw .miss
   | _ => throw .nonfinite
 
+/-- segment slope -/
+def slopeOf (o : FOps) (x0 y0 x1 y1 : Rat) : Rat := fdiv o (fsub o y1 y0) (fsub o x1 x0)
+/-- `slope / (1+ubErr)` -/
+def tiltAway (o : FOps) (slope ubErr : Rat) : Rat := fdiv o slope (fadd o 1 ubErr)
+/-- `slope / (1-ubErr)` -/
+def tiltTo (o : FOps) (slope ubErr : Rat) : Rat := fdiv o slope (fsub o 1 ubErr)
+/-- error of one candidate point: absolute inside `[-1,1]`, relative outside -/
+def pointErr (o : FOps) (f y : Rat) : Rat :=
+  if -1 ≤ f ∧ f ≤ 1 then rabs (fsub o f y) else fdiv o (rabs (fsub o f y)) (rabs f)
+
 /-- `maxErrorRelAbove1(x0, y0, x1, y1)` on subinterval `i` -/
 def maxErrRel (o : FOps) (f : Fn) (ubErr : Rat) (i : Int) (x0 y0 x1 y1 : Rat) : Except Status Rat := do
   if !(x0 < x1) then throw .degenerate
@@ -281,18 +212,18 @@ def maxErrRel (o : FOps) (f : Fn) (ubErr : Rat) (i : Int) (x0 y0 x1 y1 : Rat) : 
   let pts := [(f0, y0), (f1, y1)]
   let dxx := fsub o x1 x0
   if dxx = 0 then throw .nonfinite
-  let slope := fdiv o (fsub o y1 y0) dxx
+  let slope := slopeOf o x0 y0 x1 y1
   let pts ← addCand o f x0 y0 slope pts (f.invd1 i slope)
   let a := f.d1 x0
   let b := f.d1 x1
   if a == .miss || b == .miss then throw .miss
   let (fp0, fp1) := if OV.lt b a then (b, a) else (a, b)
-  let sA := fdiv o slope (fadd o 1 ubErr)
+  let sA := tiltAway o slope ubErr
   let pts ← if OV.le fp0 (.fin sA) && OV.le (.fin sA) fp1 then addCand o f x0 y0 slope pts (f.invd1 i sA) else pure pts
   let pts ← if ubErr ≠ 1 then do
       let den := fsub o 1 ubErr
       if den = 0 then throw .nonfinite
-      let sT := fdiv o slope den
+      let sT := tiltTo o slope ubErr
       if OV.le fp0 (.fin sT) && OV.le (.fin sT) fp1 then addCand o f x0 y0 slope pts (f.invd1 i sT) else pure pts
     else pure pts
   let pts ← if f0 < 1 ∧ 1 < f1 then do
@@ -312,27 +243,36 @@ def maxErrRel (o : FOps) (f : Fn) (ubErr : Rat) (i : Int) (x0 y0 x1 y1 : Rat) : 
       | _ => throw .preim
     else pure pts
   pure <| pts.foldl (fun errMax (fy : Rat × Rat) =>
-    let e := rabs (fsub o fy.1 fy.2)
-    let err := if -1 ≤ fy.1 ∧ fy.1 ≤ 1 then e else fdiv o e (rabs fy.1)
+    let err := pointErr o fy.1 fy.2
     if errMax < err then err else errMax) 0
+
+/-- the decision of `CompareError` -/
+def cmpCode (err ub : Rat) : Int := if err < ub then -1 else if ub < err then 1 else 0
 
 /-- `CompareError`: `-1, 0, 1` -/
 def cmpErr (o : FOps) (f : Fn) (ubErr : Rat) (i : Int) (x0 y0 x1 y1 : Rat) : Except Status Int := do
   let err ← maxErrRel o f ubErr i x0 y0 x1 y1
-  pure (if err < ubErr then -1 else if ubErr < err then 1 else 0)
+  pure (cmpCode err ubErr)
+
+/-- `ComputeInitialStepLength` for a finite `f''(x0) = f2` -/
+def initStepFin (o : FOps) (f2 ubErr ub x0 : Rat) : Rat :=
+  if rabs f2 < eps100 then fdiv o (fsub o ub x0) 100
+  else
+    let dx := o.sqrt (rabs (fdiv o (fdiv o (fmul o ubErr 8) 3) f2))
+    let dx := if ub < fadd o x0 dx then fsub o ub x0 else dx
+    if dx < eps10 then fdiv o (fsub o ub x0) 100 else dx
 
 /-- `ComputeInitialStepLength` -/
-def initStep (o : FOps) (f : Fn) (ubErr ub x0 : Rat) : Except Status Rat := do
-  let fallback := fdiv o (fsub o ub x0) 100
-  let dx ← match f.d2 x0 with
-    | .fin f2 =>
-      if rabs f2 < eps100 then return fallback
-      else pure (o.sqrt (rabs (fdiv o (fdiv o (fmul o ubErr 8) 3) f2)))
-    | .pinf | .ninf => pure 0
-    | .nan => throw .nonfinite
-    | .miss => throw .miss
-  let dx := if ub < fadd o x0 dx then fsub o ub x0 else dx
-  pure (if dx < eps10 then fallback else dx)
+def initStep (o : FOps) (f : Fn) (ubErr ub x0 : Rat) : Except Status Rat :=
+  match f.d2 x0 with
+  | .fin f2 => pure (initStepFin o f2 ubErr ub x0)
+  | .pinf | .ninf =>
+    -- ubErr*8/3/(±inf) = ±0, sqrt(fabs(·)) = 0
+    let dx : Rat := 0
+    let dx := if ub < fadd o x0 dx then fsub o ub x0 else dx
+    pure (if dx < eps10 then fdiv o (fsub o ub x0) 100 else dx)
+  | .nan => throw .nonfinite
+  | .miss => throw .miss
 
 /-- `IncreaseStepWhileErrorSmallEnough` -/
 def incStep (o : FOps) (f : Fn) (ubErr : Rat) (i : Int) (ub x0 f0 : Rat) : Nat → Rat → Except Status Rat
@@ -359,6 +299,10 @@ def decStep (o : FOps) (f : Fn) (ubErr : Rat) (i : Int) (x0 f0 : Rat) : Nat → 
       pure (0 < c)
     if shrink then decStep o f ubErr i x0 f0 fuel (fmul o dx cInv1_1) else pure dx
 
+/-- `ub_sub()-x0 < 1e-6`: snap to the end of the subinterval -/
+def snapCond (o : FOps) (ub x : Rat) : Prop := fsub o ub x < eps6
+instance (o : FOps) (ub x : Rat) : Decidable (snapCond o ub x) := by unfold snapCond; infer_instance
+
 /-- the body of the `do … while (x0 < ub_sub())` loop of `ApproximateSubinterval` -/
 def subLoop (o : FOps) (f : Fn) (ubErr : Rat) (i : Int) (ub : Rat) (stepFuel : Nat) :
     Nat → Rat → Rat → PL → Except Status PL
@@ -368,7 +312,7 @@ def subLoop (o : FOps) (f : Fn) (ubErr : Rat) (i : Int) (ub : Rat) (stepFuel : N
     let dx ← incStep o f ubErr i ub x0 f0 stepFuel dx
     let dx ← decStep o f ubErr i x0 f0 stepFuel dx
     let x1 := fadd o x0 dx
-    let x1 := if fsub o ub x1 < eps6 then ub else x1
+    let x1 := if snapCond o ub x1 then ub else x1
     let f1 ← getFin (f.eval x1)
     let pl' := addPoint o pl x1 f1
     if x1 < ub then subLoop o f ubErr i ub stepFuel fuel x1 f1 pl' else pure pl'
@@ -399,20 +343,33 @@ def intPoints (o : FOps) (f : Fn) (x0 : Rat) : Nat → Nat → PL → Except Sta
     let y ← getFin (f.eval x)
     intPoints o f x0 n (k + 1) (addPoint o pl x y)
 
-/-- conversion `int(q)` of an in-range double: truncation towards zero -/
-def truncInt (q : Rat) : Int := if q < 0 then -((-q).floor) else q.floor
+/-- `xN - x0 + 1` of `ConsiderIntegrality`, before the conversion to `int` -/
+def intCount (o : FOps) (lbx ubx : Rat) : Rat :=
+  fadd o (fsub o ((ubx.floor : Int) : Rat) ((lbx.ceil : Int) : Rat)) 1
+
+/-- the decisions of `ConsiderIntegrality` on the integer count `n` and the current number of breakpoints:
+`0` infeasible (no integer in the domain), `1` one breakpoint per integer, `2` keep the approximation -/
+def intDecision (n size : Int) : Int := if n ≤ 0 then 0 else if n ≤ size then 1 else 2
 
 /-- `ConsiderIntegrality` -/
 def considerIntegrality (o : FOps) (f : Fn) (isInt usePeriod : Bool) (d : Dom) (pl : PL) : Except Status PL := do
   if isInt && !usePeriod then
     let x0 : Rat := (d.lbx.ceil : Int)
-    let xN : Rat := (d.ubx.floor : Int)
-    let nf := fadd o (fsub o xN x0) 1
+    let nf := intCount o d.lbx d.ubx
     -- `int(xN - x0 + 1)`: conversion of an out-of-range double to int is undefined behaviour
     if nf ≥ 2147483648 ∨ nf ≤ -2147483649 then throw .ubcast
     let n : Int := truncInt nf
-    if n ≤ (pl.length : Int) then intPoints o f x0 n.toNat 0 [] else pure pl
+    -- (since a382c6e) no integer in the clipped domain: infeasible
+    if intDecision n (pl.length : Int) = 0 then throw .infeas
+    else if intDecision n (pl.length : Int) = 1 then intPoints o f x0 n.toNat 0 [] else pure pl
   else pure pl
+
+/-- `CheckDomainReturnFalseIfTrivial`: `0` infeasible (throws), `1` trivial (single point), `2` proceed -/
+def domainClass (o : FOps) (lbx ubx : Rat) : Int :=
+  if fadd o ubx eps6 < lbx then 0 else if fsub o ubx eps6 < lbx then 1 else 2
+
+/-- abscissa of the single point of a trivial domain -/
+def trivialMid (o : FOps) (lbx ubx : Rat) : Rat := fdiv o (fadd o lbx ubx) 2
 
 /-- the result record before any point is produced -/
 def res0 (d : Dom) : Res :=
@@ -420,19 +377,24 @@ def res0 (d : Dom) : Res :=
 
 /-- `CheckDomainReturnFalseIfTrivial`, trivial case: a single point in the middle -/
 def trivialRes (o : FOps) (f : Fn) (d : Dom) : Except Status Res := do
-  let mid := fdiv o (fadd o d.lbx d.ubx) 2
+  let mid := trivialMid o d.lbx d.ubx
   let v ← getFin (f.eval mid)
   pure { res0 d with pl := [(mid, v)] }
 
+/-- `per.ub - per.lb` -/
+def periodLen (o : FOps) (perLb perUb : Rat) : Rat := fsub o perUb perLb
+/-- `(x - per.lb) / periodLength` (argument of `floor` / `ceil` for the factor range) -/
+def facArg (o : FOps) (x perLb len : Rat) : Rat := fdiv o (fsub o x perLb) len
+
 /-- `InitPeriodic` -/
 def initPeriodic (o : FOps) (f : Fn) (d : Dom) : Except Status (Res × List Rat) :=
-  let len := fsub o f.perUb f.perLb
+  let len := periodLen o f.perLb f.perUb
   if len = 0 then throw .nonfinite
   else match f.bps.head?, f.bps.getLast? with
     | some b0, some bl =>
       pure ({ res0 d with usePeriod := true, periodLength := len, remLb := b0, remUb := bl,
-                          facLb := ((fdiv o (fsub o d.lbx f.perLb) len).floor : Int),
-                          facUb := ((fdiv o (fsub o d.ubx f.perLb) len).ceil : Int) }, f.bps)
+                          facLb := ((facArg o d.lbx f.perLb len).floor : Int),
+                          facUb := ((facArg o d.ubx f.perLb len).ceil : Int) }, f.bps)
     | _, _ => throw .oor
 
 /-- `InitNonPeriodic` -/
@@ -454,8 +416,8 @@ def mainLoop (o : FOps) (f : Fn) (p : Params) (fuel : Nat) (d : Dom) (res1 : Res
 /-- `BasicPLApproximator::Run()` -/
 def run (o : FOps) (f : Fn) (p : Params) (fuel : Nat) : Except Status Res := do
   let d ← clipDomain f p
-  if fadd o d.ubx eps6 < d.lbx then throw .infeas
-  else if fsub o d.ubx eps6 < d.lbx then trivialRes o f d
+  if domainClass o d.lbx d.ubx = 0 then throw .infeas
+  else if domainClass o d.lbx d.ubx = 1 then trivialRes o f d
   else do
     let rb ← (if f.periodic then initPeriodic o f d else initNonPeriodic o f d)
     mainLoop o f p fuel d rb.1 rb.2
